@@ -8,6 +8,7 @@ spec = {'rules': [[pred, class_name], ...], 'default': class_name,
 The first rule whose predicate holds on the reference token sequence of the
 file decides the class.
 """
+import re
 import zlib
 
 from . import reftok
@@ -70,13 +71,27 @@ def well_formed(toks):
     return depth == 0
 
 
+_FRESH = re.compile(r'^x\d+__fresh$')
+
+
+def canon(toks):
+    """Commands treat all fresh-variable names of ddSMT alike (the number in
+    ``x<n>__fresh`` is an allocation artefact, not part of the proposal)."""
+    if not any('__fresh' in t for t in toks):
+        return toks
+    return tuple('x__fresh' if _FRESH.match(t) else t for t in toks)
+
+
 class CmdModel:
 
     def __init__(self, spec):
         self.spec = spec
         self.cache = {}
+        self.canon = spec.get('canon_fresh', True)
 
     def classify(self, toks):
+        if self.canon:
+            toks = canon(toks)
         d = toks
         c = self.cache.get(d)
         if c is None:
